@@ -31,7 +31,7 @@ ASSUMPTIONS = [
 
 EDIT = st.tuples(st.sampled_from(["dup_id", "dup_id_doc", "clone_keep_id", "type", "unname", "dep_existing",
                                   "dep_missing", "dep_subsection", "card_on", "card_below", "card_above",
-                                  "force_dup_secname", "force_dup_propname", "force_bad_value",
+                                  "force_dup_secname", "force_dup_propname", "force_bad_value", "joined_pair", "joined_pair",
                                   "dep_existing", "dep_existing"]),
                  st.integers(0, 30), st.integers(0, 30), st.integers(0, 5)).map(list)
 
@@ -145,6 +145,19 @@ def apply_edit(doc, edit):
             return op
         except ValueError:
             return None
+    elif op == "joined_pair":
+        # two siblings whose (name, type) pairs differ but coincide when joined by a separator
+        cands = [s for s in secs if len(s.parent.sections) >= 2]
+        if cands:
+            s1 = cands[a % len(cands)]
+            s2 = [x for x in list.__iter__(s1.parent.sections) if x is not s1][b % (len(s1.parent.sections) - 1)]
+            sep = ["/", "/", " ", ",", ":", "/"][c % 6]
+            try:
+                s1.name, s1.type = "jx" + sep + "jy", "jz"
+                s2.name, s2.type = "jx", "jy" + sep + "jz"
+                return "joined_pair"
+            except Exception:
+                return None
     elif op == "force_dup_secname":
         cands = [s for s in secs if len(s.parent.sections) >= 2]
         if cands:
